@@ -292,7 +292,8 @@ func (c *Collection) WriteUpdateWithXattrs(
 				if len(updatedDoc.XattrsToDelete) > 0 {
 					return 0, sgbucket.ErrDeleteXattrOnTombstone
 				}
-				casOut, err = c.WriteResurrectionWithXattrs(ctx, key, exp, updatedDoc.Doc, updatedDoc.Xattrs, opts)
+				// only resurrect the tombstone the callback was shown, not a later one
+				casOut, err = c.writeResurrectionWithXattrs(key, exp, updatedDoc.Doc, updatedDoc.Xattrs, opts, &cas)
 			} else {
 				// Update body and/or xattr:
 				casOut, err = c.WriteWithXattrs(ctx, key, exp, cas, updatedDoc.Doc, updatedDoc.Xattrs, updatedDoc.XattrsToDelete, opts)
@@ -369,6 +370,11 @@ func (c *Collection) WriteTombstoneWithXattrs(
 
 // WriteResurrectionWithXattrs creates an alive document with a given tombstone and xattrs.
 func (c *Collection) WriteResurrectionWithXattrs(ctx context.Context, k string, exp uint32, value []byte, xattrsValues map[string][]byte, opts *sgbucket.MutateInOptions) (casOut uint64, err error) {
+	return c.writeResurrectionWithXattrs(k, exp, value, xattrsValues, opts, nil)
+}
+
+// writeResurrectionWithXattrs is WriteResurrectionWithXattrs; a non-nil ifTombstoneCas additionally requires the tombstone to still be that version.
+func (c *Collection) writeResurrectionWithXattrs(k string, exp uint32, value []byte, xattrsValues map[string][]byte, opts *sgbucket.MutateInOptions, ifTombstoneCas *CAS) (casOut uint64, err error) {
 	if value == nil {
 		return 0, sgbucket.ErrNeedBody
 	}
@@ -384,7 +390,7 @@ func (c *Collection) WriteResurrectionWithXattrs(ctx context.Context, k string, 
 		}
 		xattrs[xattrKey] = payload{marshaled: xv}
 	}
-	return c.writeWithXattrs(k, vp, xattrs, nil, expP, writeXattrOptions{insertDoc: true}, opts)
+	return c.writeWithXattrs(k, vp, xattrs, nil, expP, writeXattrOptions{insertDoc: true, ifTombstoneCas: ifTombstoneCas}, opts)
 }
 
 // Updates an xattr and deletes the body (making the doc a tombstone.)
@@ -481,6 +487,7 @@ type writeXattrOptions struct {
 	isDelete           bool // Allow ressurecting a tombstone
 	requireExistingDoc bool // Return KeyNotFoundError if doc doesn't already exist
 	deleteBody         bool // Delete the body along with updating tombstone
+	ifTombstoneCas     *CAS // If non-nil, the tombstone being resurrected must have this CAS
 }
 
 // checkCasXattr checks the cas supplied against the current cas of the document. existingCas is the current Cas of the document (will be 0 if no document) and expectedCas is the expected value. Returns CasMismatchErr on an unsuccesful CAS check.
@@ -548,6 +555,9 @@ func (c *Collection) writeWithXattrs(
 			}
 		} else {
 			return nil, remapKeyError(err, key)
+		}
+		if opts.ifTombstoneCas != nil && prevCas != *opts.ifTombstoneCas {
+			return nil, sgbucket.CasMismatchErr{Expected: *opts.ifTombstoneCas, Actual: prevCas}
 		}
 		e.revSeqNo++
 		if e.value == nil && opts.deleteBody && opts.requireExistingDoc {
